@@ -73,7 +73,7 @@ def raised_finding(run, prop, rule, repo, entry_qual, scen, r):
 
 def invariant_obligation(run, prop, rule, repo, sc, obj, entry_qual, scen, what='returned tensor train'):
     from .l2 import chain_legs, tt_invariant
-    probs = tt_invariant(sc, obj, what) + chain_legs(obj)
+    probs = tt_invariant(sc, obj, what) + chain_legs(obj, check_conj=sc.ctx.typed)
     run.oblige(rule, (entry_qual, scen, 'invariant'), not probs)
     if probs:
         fn = repo.fn(entry_qual)
